@@ -1,4 +1,5 @@
 import PydjinniModel.Sys.Files
+import PydjinniModel.Sys.Api
 /-!
 # C14 — files land where configured and the processed-files report is exact
 
@@ -14,6 +15,11 @@ File reader/writer (`Sys/Files.lean`), for **every** sequence of operations
                             the report lists per generator exactly the files written for it, in order, and exactly the generators that wrote
 * `report_inputs_exact`     `parsed.idl` / `parsed.external_types` are exactly the recorded reads
 * `log_exact`               the hook's write log is exactly the sequence of writes (incl. the report itself)
+Several configured contexts of one API object (`Sys/Api.lean`)
+* `api_generate_lands_in_own_dirs`, `api_generate_under_own_out`
+                            from any state of the API object, `generate` writes every file of a parse result to
+                            `<directory of the result's own configuration>/<relative name>`; the pinned tree's generate did not
+                            (`legacy_generate_lands_in_foreign_dir`)
 `clean` and a whole run
 * `clean_only_out_dirs`     `Generator.clean` removes exactly what lies below `header_path` / `source_path`
 * `resolve_under_out`       a relative clean name resolves below the resolved output directory (`norm_append_clean`)
@@ -376,5 +382,111 @@ example :
                         support := fun _ => [], defs := [{ name := "x", ns := ["a"], kind := .record }] }
     (runTargets r ({ keys := ["cpp"] }, [["w", "gen", "cpp", "stale.hpp"], ["w", "gen", "cppx", "keep.txt"]])).2
       = [["w", "gen", "cppx", "keep.txt"], ["w", "gen", "cpp", "a", "x.hpp"]] := by decide +kernel
+
+/-! ### several configured contexts of one API object
+
+The generator instances (and with them `header_path` / `source_path`) belong to the API object and are shared by every
+context configured from it (`Sys/Api.lean`). `GenerateContext.generate` applies the configuration its IDL was parsed with
+before generating — so the files of a parse result land below the directories of *its own* context, whatever other
+contexts were configured, parsed or generated in between. -/
+
+def Outcome.files : Outcome → List (Path × ContentId)
+  | .wrote fs => fs
+  | .missingConfig fs => fs
+  | .crash fs => fs
+  | _ => []
+
+theorem mem_zipWith_right {α β γ : Type} (f : α → β → γ) :
+    ∀ (l₁ : List α) (l₂ : List β) (x : γ), x ∈ List.zipWith f l₁ l₂ → ∃ a b, b ∈ l₂ ∧ x = f a b
+  | [], _, x, h => by simp at h
+  | _ :: _, [], x, h => by simp at h
+  | a :: as, b :: bs, x, h => by
+    simp only [List.zipWith_cons_cons, List.mem_cons] at h
+    rcases h with rfl | h
+    · exact ⟨a, b, by simp, rfl⟩
+    · obtain ⟨a', b', hb, rfl⟩ := mem_zipWith_right f as bs x h
+      exact ⟨a', b', by simp [hb], rfl⟩
+
+/-- every file a run of generators reports was there before or is `<current directory of g, by kind>/<relative name of g>` -/
+theorem generateGens_files (w : World) (gc : GenCtx) (tgs gs : List G) (s : ApiState) (acc : List (Path × ContentId)) :
+    ∀ x ∈ (generateGens w gc tgs gs s acc).2.files, x ∈ acc ∨
+      ∃ g ∈ gs, ∃ cm cc, gc.mcfg g = some cm ∧ s.genCfg g = some cc ∧
+        ∃ kr ∈ genRel g cm cc (if gc.supportLib then w.support g else []) gc.prog.defs, x.1 = (cc.dir kr.1).join kr.2 := by
+  induction gs generalizing s acc with
+  | nil => intro x hx; left; simpa [generateGens, Outcome.files] using hx
+  | cons g gs ih =>
+    intro x hx
+    unfold generateGens at hx
+    cases h1 : s.genCfg g with
+    | none => simp only [h1, Outcome.files] at hx; exact Or.inl hx
+    | some cc =>
+      cases h2 : gc.mcfg g with
+      | none => simp only [h1, h2, Outcome.files] at hx; exact Or.inl hx
+      | some cm =>
+        simp only [h1, h2] at hx
+        rcases ih _ _ x hx with h | ⟨g', hg', cm', cc', hm, hc, kr, hkr, hx'⟩
+        · rcases List.mem_append.mp h with h | h
+          · exact Or.inl h
+          · right
+            refine ⟨g, by simp, cm, cc, h2, h1, ?_⟩
+            obtain ⟨y, hy, rfl⟩ := List.mem_map.mp h
+            unfold genOutput at hy
+            obtain ⟨i, f, hf, rfl⟩ := mem_zipWith_right _ _ _ _ hy
+            exact ⟨f, hf, rfl⟩
+        · right
+          exact ⟨g', by simp [hg'], cm', cc', hm, hc, kr, hkr, hx'⟩
+
+/-- **Files land where the generating context configured them**: from *any* state of the API object (other contexts
+    configured, parsed, generated, cleaned before), every file `generate` writes for a parse result is
+    `<header_path or source_path of the result's own configuration of g>/<relative name>` for a generator `g` of the target. -/
+theorem api_generate_lands_in_own_dirs (w : World) (s : ApiState) (gc : GenCtx) (t : T) :
+    ∀ x ∈ (generate w s gc t).2.files, ∃ g ∈ t.generators, ∃ c, gc.mcfg g = some c ∧
+      ∃ kr ∈ genRel g c c (if gc.supportLib then w.support g else []) gc.prog.defs, x.1 = (c.dir kr.1).join kr.2 := by
+  intro x hx
+  unfold generate at hx
+  split at hx
+  · rcases generateGens_files _ _ _ _ _ _ x hx with h | ⟨g, hg, cm, cc, hm, hc, kr, hkr, hx'⟩
+    · simp at h
+    · have hcc : cc = cm := by
+        simp only [List.contains_iff_mem, hg, if_true] at hc
+        rw [hm] at hc
+        exact (Option.some.inj hc).symm
+      subst hcc
+      exact ⟨g, hg, cc, hm, kr, hkr, hx'⟩
+  · simp [Outcome.files] at hx
+
+/-- … spelled out: the configured directory, as configured, followed by the relative name. -/
+theorem api_generate_under_own_out (w : World) (s : ApiState) (gc : GenCtx) (t : T)
+    (hsup : ∀ g, ∀ f ∈ w.support g, f.2.abs = false)
+    (hb : ∀ g c, gc.mcfg g = some c → ∀ p, c.bridging = some p → p.abs = false)
+    (ho : ∀ g c, gc.mcfg g = some c → ∀ p, c.outFile = some p → p.abs = false) :
+    ∀ x ∈ (generate w s gc t).2.files, ∃ g ∈ t.generators, ∃ c, gc.mcfg g = some c ∧ ∃ (k : FKind) (rel : Path), rel.abs = false ∧
+      x.1.parts = (c.dir k).parts ++ rel.parts ∧ x.1.abs = (c.dir k).abs := by
+  intro x hx
+  obtain ⟨g, hg, c, hc, kr, hkr, hx'⟩ := api_generate_lands_in_own_dirs w s gc t x hx
+  have hrel : kr.2.abs = false := by
+    apply genRel_relative g c c _ gc.prog.defs _ (hb g c hc) (ho g c hc) kr hkr
+    intro f hf
+    split at hf
+    · exact hsup g f hf
+    · simp at hf
+  refine ⟨g, hg, c, hc, kr.1, kr.2, hrel, ?_, ?_⟩ <;> simp [hx', Path.join, hrel]
+
+/-! the pinned tree's `generate` (no re-configuration): after another context parsed, the files of the first context's
+    result land in the *other* context's directory -/
+def cfgDirA : Cfg := { gens := fun g => if g = .cpp then some { out := .one (.rel ["outA"]), content := "A" } else none }
+def cfgDirB : Cfg := { gens := fun g => if g = .cpp then some { out := .one (.rel ["elsewhere", "outB"]), content := "B" } else none }
+def progX : Prog := { id := "P", reads := [.rel ["p.pydjinni"]], exts := [], defs := [{ name := "x", kind := .enum }] }
+def worldAB : World := { cfgs := [cfgDirA, cfgDirB], progs := [progX], support := fun _ => [] }
+
+theorem legacy_generate_lands_in_foreign_dir :
+    (generateLegacy worldAB (runCalls worldAB initState [.parse 0 0, .parse 1 0]).1 (ctxOf cfgDirA progX) .cpp).2.files.map (·.1)
+      = [.rel ["elsewhere", "outB", "x.hpp"], .rel ["elsewhere", "outB", "x.cpp"]] := by
+  decide +kernel
+
+example :
+    (generate worldAB (runCalls worldAB initState [.parse 0 0, .parse 1 0]).1 (ctxOf cfgDirA progX) .cpp).2.files.map (·.1)
+      = [.rel ["outA", "x.hpp"], .rel ["outA", "x.cpp"]] := by
+  decide +kernel
 
 end Pydjinni.SysC
